@@ -102,6 +102,7 @@ type State struct {
 	curEnv   int
 	envN     int
 	known    [][]byte
+	syncMaps map[*value]*mapV
 }
 
 func (st *State) curFnOr(cc *ssa.CallCommon) *ssa.Function {
